@@ -276,6 +276,7 @@ func runC07(c *report.Ctx) {
 	// ---- range end / discovery window ---------------------------------------------------------------------
 	ruleScanToCursorInclusive(c)
 	ruleGapWindowExtends(c)
+	ruleLayout(c, []string{"wallet-status-value"}, 2)
 }
 
 func stripIface(v ssa.Value) ssa.Value {
